@@ -50,6 +50,10 @@ impl<E> Record<E> {
     pub fn hash(&self) -> (r: u64) ensures r == self.spec_hash() { unimplemented!() }
     #[verifier::external_body]
     pub fn inc_refs(&self, v: usize) -> usize { unimplemented!() }
+    #[verifier::external_body]
+    pub fn dec_refs(&self, v: usize) -> usize { unimplemented!() }
+    #[verifier::external_body]
+    pub fn refs(&self) -> usize { unimplemented!() }
 }
 impl<E: Eviction> Record<E> {
     pub uninterp spec fn spec_key(&self) -> E::Key;
@@ -875,6 +879,37 @@ impl<E: Eviction> EntryT<E> {
             // eviction container exactly once, so a pinned record becomes evictable again
             old(self).record.spec_props().spec_phantom() != Some(true) ==>
                 final(shard).released@ == old(shard).released@.push(old(self).record), // @label last_drop_of_any_handle_releases_the_record_once
+//@end
+}
+
+// ---- RawCacheShard::get_mutable / get_immutable (C18): EVERY lookup hit acquires the record in the eviction container
+// (under LRU: moves it to the pin list), whatever other handles exist; a miss acquires nothing. `get_inner` is seen
+// through its contract above, the acquire helpers (`match E::acquire() { Op::..(f) => f(..) }`, closures) as a log.
+pub struct LookupShardT<E: Eviction> { pub found: Option<Arc<Record<E>>>, pub acquired: Ghost<Seq<int>> }
+impl<E: Eviction> LookupShardT<E> {
+    #[verifier::external_body]
+    pub fn get_inner(&self, hash: u64, key: &E::Key) -> (r: Option<Arc<Record<E>>>) ensures r == self.found { unimplemented!() }
+    #[verifier::external_body]
+    pub fn acquire_mutable(&mut self, record: &Arc<Record<E>>)
+        ensures final(self).acquired@ == old(self).acquired@.push(record.id()), final(self).found == old(self).found { }
+    #[verifier::external_body]
+    pub fn acquire_immutable(&mut self, record: &Arc<Record<E>>)
+        ensures final(self).acquired@ == old(self).acquired@.push(record.id()), final(self).found == old(self).found { }
+//@region foyer-memory/src/raw.rs :: impl~RawCacheShard<E, S, I>/fn get_mutable name=get_mutable whole=1 rules=option-inspect
+//@head
+    fn get_mutable(&mut self, hash: u64, key: &E::Key) -> (r: Option<Arc<Record<E>>>)
+        ensures
+            r == old(self).found, // @label lookup_returns_what_get_inner_found
+            r.is_some() ==> final(self).acquired@ == old(self).acquired@.push(r.unwrap().id()), // @label every_lookup_hit_acquires_the_record_once
+            r.is_none() ==> final(self).acquired@ == old(self).acquired@, // @label a_miss_acquires_nothing
+//@end
+//@region foyer-memory/src/raw.rs :: impl~RawCacheShard<E, S, I>/fn get_immutable name=get_immutable whole=1 rules=option-inspect
+//@head
+    fn get_immutable(&mut self, hash: u64, key: &E::Key) -> (r: Option<Arc<Record<E>>>)
+        ensures
+            r == old(self).found, // @label lookup_returns_what_get_inner_found
+            r.is_some() ==> final(self).acquired@ == old(self).acquired@.push(r.unwrap().id()), // @label every_lookup_hit_acquires_the_record_once
+            r.is_none() ==> final(self).acquired@ == old(self).acquired@, // @label a_miss_acquires_nothing
 //@end
 }
 
